@@ -197,6 +197,8 @@ def compare_prop(name, exp: dict, got: dict) -> str | None:
         for i, (a, b) in enumerate(zip(ev, gv)):
             if rows is not None and not rows[i]:
                 continue
+            if a.dtype.name == "float16":
+                a = a.astype("float32")  # float16 is upcast to float32, element by element
             if not isinstance(b, np.ndarray) or a.dtype.name != b.dtype.name or a.shape != b.shape or not same_values(a, b, None):
                 return f"{name}: var-length element {i} differs"
         return None
